@@ -26,7 +26,7 @@ def main():
     import reference
     import isolate
     isolate.FH_LOG = fh_log
-    seams.silence()
+    seams.silence(disable_logging=(world_name == "tablecache"))
     sys.path.insert(0, tree)
     os.chdir(workroot)
     trash = os.path.join(workroot, "ref-trash")
